@@ -139,7 +139,7 @@ def diagram(rng, circles, allow_quotes=False, allow_braces=False, small=False):
         return 'page', page(rng, rng.choice([20, 40, 70, 140, 300]))
     q = rng.random()
     if q < 0.45:
-        alpha = rng.choice([FULL, ASCII_DRAW + 'ab', ASCII_DRAW + UNI_DRAW + UNI_MORE + 'abé日', "-|+.'`,/\\ab", "()_-.'`,/\\|"])
+        alpha = rng.choice([FULL, ASCII_DRAW + 'ab', ASCII_DRAW + UNI_DRAW + UNI_MORE + 'abé日', ASCII_DRAW + 'ab\u1100\u26a1\u2b50', "-|+.'`,/\\ab", "()_-.'`,/\\|"])
         if allow_braces:
             alpha += '{}'
         rows = random_grid(rng, alpha, wmax=10 if small else 16, hmax=6 if small else 8)
